@@ -360,6 +360,16 @@ def write_replay(prop, name, payload):
     return path
 
 
+def _replay_fails(prop, path):
+    """does `check <prop> --replay <path>` report the failure in a fresh process?  (True also when that cannot be determined)"""
+    try:
+        p = subprocess.run([os.path.join(VERIF, "check"), prop, "--replay", path, "--no-build"], cwd=VERIF, stdout=subprocess.PIPE,
+                           stderr=subprocess.STDOUT, text=True, timeout=600, env=dict(os.environ))
+        return p.returncode != 0
+    except Exception:
+        return True
+
+
 def run_check(chk, argv):
     import argparse
     ap = argparse.ArgumentParser()
@@ -522,9 +532,20 @@ def run_check(chk, argv):
         seen_keys.add(key)
         small = chk.shrink(case, key)
         sobs, sf = chk.fails(small)
-        path = write_replay(P, hashlib.sha1(canon(key).encode()).hexdigest()[:10],
-                            {"property": P, "kind": "failing-input", "key": key, "case": small, "observed": sobs, "failure": sf,
-                             "broken": [list(b) for b in broken]})
+        rid = hashlib.sha1(canon(key).encode()).hexdigest()[:10]
+        path = write_replay(P, rid, {"property": P, "kind": "failing-input", "key": key, "case": small, "observed": sobs, "failure": sf,
+                                     "broken": [list(b) for b in broken]})
+        # the replay must fail on its own, in a fresh process: state leaked by earlier cases of this run (a class-level
+        # cache in the code under test) can make a shrunk case fail here and nowhere else.  If it does not reproduce, fall
+        # back to the case as found, and if that does not reproduce either say so in the replay.
+        note = None
+        if not _replay_fails(P, path):
+            path = write_replay(P, rid, {"property": P, "kind": "failing-input", "key": key, "case": case, "observed": obs, "failure": f,
+                                         "broken": [list(b) for b in broken], "note": "the shrunk case did not fail in a fresh process; this is the case as found"})
+            if not _replay_fails(P, path):
+                note = "fails only after the earlier cases of the run (state carried between cases); run the check itself to reproduce"
+                write_replay(P, rid, {"property": P, "kind": "failing-input", "key": key, "case": case, "observed": obs, "failure": f,
+                                      "broken": [list(b) for b in broken], "note": note})
         print("VIOLATION property=%s replay=%s" % (P, path)); rc = 1
         if len(seen_keys) >= 5: break
     if not violations and (broken or disagreements):
